@@ -37,7 +37,8 @@ def configs(tier, seed):
     out.append(dict(kind="centroid", W=Wc, max_instances=1, crops=True))
     out.append(dict(kind="bottomup", W=Wc, C=1))
     out.append(dict(kind="bottomup", W=2 if tier == "quick" else 3, C=2))
-    out.append(dict(kind="single", G=2))
+    out.append(dict(kind="single", G=2, N=2, refinement=None))
+    out.append(dict(kind="single", G=2, N=1, refinement="integral"))
     for B in (1, 2, 3):
         out.append(dict(kind="generator", batch=B, frames=3))
     return out
@@ -73,10 +74,19 @@ def _maps(T, tag, C, H, W):
 
 def _eq_lists(a, b, xf):
     """goal: two lists of XF are element-wise the same float (NaN == NaN); None if lengths differ."""
-    from symx.xf import XF, xeq_term, And
+    from symx.xf import XF, xeq_term, And, isz
+
+    def same(p, q):
+        return p is q or (isz(p) and isz(q) and p.eq(q)) or (not isz(p) and not isz(q) and p == q)
     if len(a) != len(b):
         return None
-    return And(*[xeq_term(XF.of(x), XF.of(y)) for x, y in zip(a, b)])
+    goals = []
+    for x, y in zip(a, b):
+        x, y = XF.of(x), XF.of(y)
+        if same(x.v, y.v) and same(x.nan, y.nan) and same(x.pinf, y.pinf) and same(x.ninf, y.ninf):
+            continue  # syntactically the same term: nothing to ask the solver
+        goals.append(xeq_term(x, y))
+    return And(*goals)
 
 
 def _run_centroid(cfg):
@@ -289,7 +299,10 @@ def _run_single(cfg):
     from symx.harness import Report, discharge
     pf, td, bu, si = _install()
     rep = Report(cfg)
-    G, s, N = cfg["G"], 2, 2
+    G, s, N, refinement = cfg["G"], 2, cfg.get("N", 2), cfg.get("refinement")
+    if refinement is not None:
+        from symx import stubs
+        pf.crop_and_resize = stubs.crop_and_resize_model
     ef = {"A": z3.Real("effA"), "B": z3.Real("effB")}
     ex = Explorer([ef["A"] > 0, ef["B"] > 0], timeout_ms=60000, max_paths=5000)
     vals = {}
@@ -297,7 +310,7 @@ def _run_single(cfg):
     def run(order):
         cms = T.from_values([v for f in order for v in vals[f]], (len(order), N, G, G), torch.float32)
         net = type("N", (torch.nn.Module,), {"forward": lambda self, img: cms})()
-        model = si.SingleInstanceInferenceModel(net, output_stride=s, peak_threshold=0.2, refinement=None, input_scale=0.5)
+        model = si.SingleInstanceInferenceModel(net, output_stride=s, peak_threshold=0.2, refinement=refinement, integral_patch_size=3, input_scale=0.5)
         out = model({"image": torch.zeros(len(order), 1, 1, G * s, G * s), "eff_scale": T.from_values([XF(ef[f]) for f in order], (len(order),), torch.float32)})[0]
         pk, pv = out["pred_instance_peaks"].values(), out["pred_peak_values"].values()
         return {f: (pk[b * N * 2:(b + 1) * N * 2], pv[b * N:(b + 1) * N]) for b, f in enumerate(order)}
@@ -454,13 +467,13 @@ def replay(cfg, inputs, obligation):
                     return True, f"frame {f}: batch {o} gives {outs[o][o.index(f)]}, alone {outs[f][0]}"
         return False, "agree"
     if kind == "single":
-        G, s, N = cfg["G"], 2, 2
+        G, s, N = cfg["G"], 2, cfg.get("N", 2)
         maps, eff = inputs["maps"], inputs["eff"]
 
         def run(order):
             cms = torch.tensor([maps[f] for f in order], dtype=torch.float32).reshape(len(order), N, G, G)
             net = type("N", (torch.nn.Module,), {"forward": lambda self, img: cms})()
-            model = si.SingleInstanceInferenceModel(net, output_stride=s, peak_threshold=0.2, refinement=None, input_scale=0.5)
+            model = si.SingleInstanceInferenceModel(net, output_stride=s, peak_threshold=0.2, refinement=cfg.get("refinement"), integral_patch_size=3, input_scale=0.5)
             out = model({"image": torch.zeros(len(order), 1, 1, G * s, G * s), "eff_scale": torch.tensor([eff[f] for f in order], dtype=torch.float32)})[0]
             return {f: (out["pred_instance_peaks"][b], out["pred_peak_values"][b]) for b, f in enumerate(order)}
         outs = {o: run(o) for o in ("AB", "BA", "A", "B")}
